@@ -3,6 +3,11 @@
 package corerad
 
 import (
+	"github.com/mdlayher/corerad/internal/system"
+	"log"
+	"io"
+	"context"
+	"net/netip"
 	"fmt"
 	"math/rand"
 	"testing"
@@ -170,6 +175,7 @@ func TestVerifC05(t *testing.T) {
 	// part "loop": the real advertiser in virtual time.  With min >= 6 s every
 	// unsolicited RA after the second is transmitted at the instant it is
 	// requested, so the waits are the gaps between multicast transmissions.
+	c05SlowConsumer(t, r)
 	rr := r.Rand("c05", "loop")
 	n := r.Pick(200, 5000)
 	for k := 0; k < n; k++ {
@@ -188,6 +194,12 @@ func TestVerifC05(t *testing.T) {
 			max = time.Duration(30+rr.Intn(1771)) * time.Second
 			min = time.Duration(6+rr.Intn(int(max/time.Second)*3/4-5)) * time.Second
 		}
+		// one scenario in four with min = max in whole seconds also gets bursts of
+		// solicitations at the tick instants (three goroutine orderings)
+		busy := 0
+		if k%3 == 0 && k%2 == 0 && k%4 == 0 {
+			busy = 1 + k/12%3
+		}
 		if !r.Mine(id) {
 			continue
 		}
@@ -200,12 +212,37 @@ func TestVerifC05(t *testing.T) {
 		}
 		lo, hi := ifi.MinInterval, ifi.MaxInterval
 		horizon := 10 * hi
+		if busy != 0 {
+			r.Count("loops_with_bursts_at_tick_instants", 1)
+		}
 		var ev []vfake.Event
 		returned := false
 		var stopT time.Duration
 		pm := vBubble(t, func() {
 			h := vNewH(ifi, exp, time.Duration(rr.Int63n(1e9)))
+			burstAt := func(off time.Duration) {
+				// bursts of solicitations from distinct unicast sources, larger than the
+				// 16-slot request queue, aimed at the very instants the interval timer
+				// fires (ticks are at multiples of max when min = max in whole seconds)
+				for j := 3; j < 9; j++ {
+					if d := time.Duration(j)*hi + off - h.tr.Now(); d > 0 {
+						time.Sleep(d)
+					}
+					for x := 0; x < 40; x++ {
+						h.rs(netip.MustParseAddr(fmt.Sprintf("fe80::b:%x:%x", j, x+1)), x%2 == 0)
+					}
+				}
+			}
+			if busy == 1 {
+				go burstAt(0)
+			}
 			h.startAdvertiser()
+			switch busy {
+			case 2:
+				go burstAt(0)
+			case 3:
+				go burstAt(-time.Nanosecond)
+			}
 			h.at(horizon + time.Duration(rr.Int63n(int64(hi))))
 			stopT = h.tr.Now()
 			h.stop(false)
@@ -283,4 +320,95 @@ func min3(a, b int) int {
 		return a
 	}
 	return b
+}
+
+// c05SlowConsumer drives the request loop itself (Advertiser.multicast) against
+// a request queue that is momentarily full at the instant the interval timer
+// fires (a burst of solicitations while the scheduler goroutine is not running):
+// the request must be made all the same, as soon as there is room — a dropped
+// request doubles the time between two unsolicited RAs.  Virtual time, min = max
+// in whole seconds, so every expected instant is known exactly.
+func c05SlowConsumer(t *testing.T, r *vlib.Run) {
+	for _, M := range []time.Duration{4 * time.Second, 6 * time.Second, 8 * time.Second} { // max < 9 s: min = max, ticks at multiples of max
+		for _, tick := range []int{1, 2, 3, 5} {
+			for _, early := range []time.Duration{time.Nanosecond, 300 * time.Millisecond} {
+				for _, stall := range []time.Duration{time.Nanosecond, 200 * time.Millisecond, time.Second} {
+					id := fmt.Sprintf("slowconsumer/%v/%d/%v/%v", M, tick, early, stall)
+					if !r.Mine(id) {
+						continue
+					}
+					r.Begin(id)
+					r.Nontrivial(id)
+					doc := vBaseDoc(0, M)
+					ifi, exp, err := vParseOne(doc)
+					if err != nil {
+						r.Violation(id, "harness", err.Error(), nil)
+						continue
+					}
+					var got []time.Duration
+					pm := vBubble(t, func() {
+						h := vNewH(ifi, exp, time.Duration(tick)*977)
+						d := system.NewDialer(ifi.Name, h.st, system.Advertise, log.New(io.Discard, "", 0))
+						adv := NewAdvertiser(h.cctx, ifi, d, nil, func() bool { return false })
+						ctx, cancel := context.WithCancel(context.Background())
+						ipC := make(chan netip.Addr, 16)
+						done := make(chan struct{})
+						t0 := time.Now()
+						go func() { adv.multicast(ctx, ipC); close(done) }()
+						drain := func(until time.Duration) {
+							for {
+								left := until - time.Since(t0)
+								if left <= 0 {
+									return
+								}
+								select {
+								case ip := <-ipC:
+									if ip.IsMulticast() {
+										got = append(got, time.Since(t0))
+									}
+								case <-time.After(left):
+									return
+								}
+							}
+						}
+						full := time.Duration(tick)*M - early
+						drain(full)
+						for i := 0; i < 16; i++ { // the listener's share of the queue
+							ipC <- netip.MustParseAddr(fmt.Sprintf("fe80::c:%x", i+1))
+						}
+						time.Sleep(early + stall) // the consumer is not running across the tick
+						drain(time.Duration(tick+4) * M)
+						cancel()
+						// the loop may be parked in a send: keep the queue moving until it is gone
+						for stop := false; !stop; {
+							select {
+							case <-ipC:
+							case <-done:
+								stop = true
+							}
+						}
+					})
+					if pm != "" {
+						r.Violation(id, "bubble-panic", pm, nil)
+						continue
+					}
+					r.Count("slow_consumer_requests_observed", len(got))
+					det := map[string]any{"interval": M.String(), "queue_full_from": (time.Duration(tick)*M - early).String(), "consumer_resumes": (time.Duration(tick)*M + stall).String(), "request_instants": fmt.Sprint(got)}
+					for i := 1; i < len(got); i++ {
+						lim := M
+						if i == tick {
+							lim += stall // this request had to wait for room in the queue
+						}
+						if gap := got[i] - got[i-1]; gap > lim {
+							r.Violation(id, "request-dropped", fmt.Sprintf("unsolicited RA requests %d and %d are %v apart with MaxRtrAdvInterval %v (the queue was full for %v across the tick)", i-1, i, gap, M, early+stall), det)
+							break
+						}
+					}
+					if len(got) < tick+4 {
+						r.Violation(id, "stopped-requesting", fmt.Sprintf("%d unsolicited RA requests in %v, want at least %d", len(got), time.Duration(tick+4)*M, tick+4), det)
+					}
+				}
+			}
+		}
+	}
 }
